@@ -130,11 +130,13 @@ LINTERS = [  # command, file name, content key, comment style, rule prefix of in
 
 
 def linter_impl(args):
-    idx, cmd, fname, text, variants, root = args
+    idx, cmd, fname, text, variants, root = args[:6]
     proj = Path(root) / f"l{idx}"
     proj.mkdir(parents=True)
     out = {"errors": [], "runs": []}
     try:
+        if len(args) > 6 and args[6]:
+            (proj / ".thailint.yaml").write_text(args[6])
         f = proj / fname
         for label, body in [("base", text)] + variants:
             f.write_text(body)
@@ -182,13 +184,19 @@ def run(tier: str, seed: int, st: core.ProofStatus) -> core.Result:
         cell_impl = core.pmap(engine_impl, cell_work, procs=16, chunksize=4)
         # ---------------- B
         workB, metaB = [], []
-        for li, (cmd, fname, key, cm) in enumerate(LINTERS):
-            text = (core.VERIF / "harness" / "data" / f"trig.{key}.txt").read_text()
-            workB.append((li, cmd, fname, text, [], str(root)))
+        # two texts per linter: the fixed trigger file, and a seeded file with every planted-construct kind three times, under strict limits, so that
+        # the rule in question has findings before and after the suppressed one ("changes no other violation")
+        from ..gen_constructs import gen_file_all
+        rich = {key: gen_file_all(rng, key, f"r{key}", reps=3) for key in ("py", "ts", "rs")}
+        strict = ("nesting:\n  max_nesting_depth: 1\nsrp:\n  max_methods: 1\n  max_loc: 4\nmagic-numbers:\n  allowed_numbers: []\n  max_small_integer: 1\n"
+                  "stateless-class:\n  min_methods: 1\nmethod-property:\n  max_body_statements: 9\n")
+        items = [(cmd, fname, key, cm, (core.VERIF / "harness" / "data" / f"trig.{key}.txt").read_text(), None) for cmd, fname, key, cm in LINTERS]
+        items += [(cmd, fname, key, cm, rich[key], strict) for cmd, fname, key, cm in LINTERS]
+        for li, (cmd, fname, key, cm, text, cfg) in enumerate(items):
+            workB.append((li, cmd, fname, text, [], str(root), cfg))
         baseB = core.pmap(linter_impl, workB, procs=16)
         work2 = []
-        for li, ((cmd, fname, key, cm), b) in enumerate(zip(LINTERS, baseB)):
-            text = (core.VERIF / "harness" / "data" / f"trig.{key}.txt").read_text()
+        for li, ((cmd, fname, key, cm, text, cfg), b) in enumerate(zip(items, baseB)):
             base = (b["runs"][0]["vs"] or []) if b["runs"] else []
             src = text.split("\n")
             variants, plan = [], []
@@ -217,7 +225,8 @@ def run(tier: str, seed: int, st: core.ProofStatus) -> core.Result:
                         shift, scope = (lambda ln, P=pad: ln + (1 if ln > P else 0)), set()
                     variants.append((f"{form}:{rule}@{line}", "\n".join(s)))
                     plan.append({"form": form, "rule": rule, "line": line, "named": named, "shift": shift, "scope": scope})
-            work2.append((1000 + li, cmd, fname, text, variants, str(root)))
+            work2.append((1000 + li, cmd, fname, text, variants, str(root), cfg))
+            res.bump("B_findings_in_base_file", f"{cmd}/{key}{'/rich' if cfg else ''}: {len(base)}")
             metaB.append({"cmd": cmd, "fname": fname, "plan": plan, "base": base})
         implsB = core.pmap(linter_impl, work2, procs=16)
     finally:
